@@ -1032,7 +1032,8 @@ fn x_cell_case(r: &mut Rng, shape: &str, lagx: bool, e: usize, rows: u8, rep: us
     if rep % 2 == 1 { s.periodic = vec![*r.pick(&[2usize, 4, n])]; s.use_per = (0..w).map(|_| r.chance(1, 2)).collect(); }
     s.exemptions = e;
     let stride = pow2_le(r, 1, log_n.min(4));
-    s.assertions = match rep % 3 {
+    // (a constant column is degenerate as soon as there are >= 2 exemptions and its exempt rows are not used: keep those members for the degenerate stream)
+    s.assertions = match if rows == 0 && e >= 2 && rep % 3 == 2 { 0 } else { rep % 3 } {
         0 => vec![AKind::Single { col: 0, step: if r.chance(1, 2) { 0 } else { r.below(n as u64) as usize } }],
         1 => vec![AKind::Sequence { col: 0, first: r.below(stride as u64) as usize, stride }],
         _ => { s.hold[w - 1] = true; let mut a = vec![AKind::Periodic { col: w - 1, first: r.below(stride as u64) as usize, stride }]; if w > 1 { a.push(AKind::Single { col: 0, step: n - 1 }); } a }
@@ -1136,6 +1137,14 @@ fn x_stream(r: &mut Rng, t: &mut Tally, n_random: usize, reps: usize) {
         if !admissible(&c) { t.skipped += 1; continue; }
         check(&c, t, &format!("x-width:{}+{}", w, aw));
     }
+    // ---- SEQUENCE assertion with >= 64 values on an AUXILIARY column (the boundary evaluator's large-polynomial path for the auxiliary segment), 128 / 256 rows
+    for &(log_n, ext, lagx, e) in &[(7u32, 1u8, false, 1usize), (7, 2, true, 2), (7, 3, false, 3), (8, 2, true, 1)] {
+        let mut s = Spec::simple(2, log_n, 2, r.next_u64());
+        s.aux_width = 2 + r.below(2) as usize; s.aux_rands = 2; s.exemptions = e;
+        let (f, h) = pick_fh(r, ext);
+        let c = Case { x: Some(X { lagx, rows: 2, aux: 1, first: 1, stride: 2 }), lag: 0, field: f, hasher: h, opts: Opts { q: 3, blowup: 4, grind: 0, ext, fold: 4, rem: 7 }, spec: s };
+        check(&c, t, "x-aux-sequence:>=64-values");
+    }
     // ---- the plain Lagrange-kernel family (degree-1 constraints, one exemption: always degree-exact) on 8..64 rows
     for f in FIELDS { for ext in 1..=3u8 { for &(log_n, aw) in &[(3u32, 2usize), (4, 3), (5, 8), (6, 2)] {
         if !ext_supported(f, ext) { continue; }
@@ -1158,7 +1167,9 @@ fn x_stream(r: &mut Rng, t: &mut Tally, n_random: usize, reps: usize) {
         if r.chance(1, 2) && s.aux_width == 0 { s.aux_width = 1 + r.below(2 * s.width as u64 + 1) as usize; s.aux_rands = 1 + r.below(3) as usize; }
         let st = pow2_le(r, 1, s.log_n.min(5));
         let xa = if s.aux_width == 0 { 0 } else { r.below(3) as u8 };
-        let x = X { lagx: s.aux_width > 0 && r.chance(1, 2), rows: r.below(3) as u8, aux: xa, stride: st, first: if xa == 1 { 1 + r.below(st as u64 - 1) as usize } else { r.below(st as u64) as usize } };
+        // constant columns stay constant unless the exempt rows are used: mostly use them, so that most members are degree-exact (debug profile)
+        let rows = if s.exemptions >= 2 && (xa == 2 || s.hold.iter().any(|&h| h)) && r.chance(3, 4) { 2 } else { r.below(3) as u8 };
+        let x = X { lagx: s.aux_width > 0 && r.chance(1, 2), rows, aux: xa, stride: st, first: if xa == 1 { 1 + r.below(st as u64 - 1) as usize } else { r.below(st as u64) as usize } };
         if s.aux_width > 0 && s.exemptions >= 2 && r.chance(1, 4) { s.aux_assert_last = true; }
         let ext = 1 + r.below(3) as u8;
         let (f, h) = pick_fh(r, ext);
